@@ -46,13 +46,17 @@ def render(trees):
         done.add(name)
         body = []
         for catch, c in children:
-            if catch:
+            if catch == 2:
+                # the caller handles the child's failure by running a recovery testcase INSIDE the except block
+                body += ["try:", f"    n{c[0]}()", "except Exception:", f"    n{c[0]}r()"]
+            elif catch:
                 body += ["try:", f"    n{c[0]}()", "except Exception:", "    pass"]
             else:
                 body.append(f"n{c[0]}()")
         # a skip with a reason, with an empty reason, or the bare exception: all three are skips
         skip = [f"tbot.skip('n{name}')", "tbot.skip('')", "raise tbot.SkipException()"][name % 3]
-        body.append({0: "pass", 1: f"raise VerifError('n{name}')", 2: skip, 3: "raise KeyboardInterrupt()"}[b])
+        body.append({0: "pass", 1: f"raise VerifError('n{name}')", 2: skip, 3: "raise KeyboardInterrupt()",
+                     4: "import sys; sys.exit(3)", 5: f"import sys; sys.exit('fatal: n{name}')"}[b])
         if form == 0:
             lines.append("@tbot.testcase")
             lines.append(f"def n{name}():")
@@ -68,6 +72,9 @@ def render(trees):
         lines.append("")
     for t in trees:
         emit(t)
+    # recovery testcases n<k>r (pass) for every node: used by catch == 2
+    for name in sorted(done):
+        lines += ["@tbot.testcase", f"def n{name}r():", "    pass", ""]
     return "\n".join(lines)
 
 
@@ -89,14 +96,19 @@ def read_log(path):
     return evs
 
 
+def _nm(name):
+    x = name[1:]
+    return int(x) if x.isdigit() else x
+
+
 def canon(events):
     out = []
     for e in events:
         t, d = e["type"], e["data"]
         if t == ["tc", "begin"]:
-            out.append([1, int(d["name"][1:])])
+            out.append([1, _nm(d["name"])])
         elif t == ["tc", "end"]:
-            out.append([2, int(d["name"][1:]), bool(d["success"]), bool(d["skipped"])])
+            out.append([2, _nm(d["name"]), bool(d["success"]), bool(d["skipped"])])
         elif t == ["exception"]:
             out.append([3, d["name"] == "KeyboardInterrupt"])
         elif t == ["tbot", "end"]:
@@ -225,9 +237,13 @@ class CliSuite(Suite):
             escaped = None
             for catch, k in kids:
                 o = ev_node(k)
-                if o == "kbd" or (o == "exc" and not catch):
+                if o in ("kbd", "exit3", "exit1") or (o == "exc" and not catch):
                     escaped = o
                     break
+                if o == "exc" and catch == 2:
+                    # the recovery testcase runs inside the except block and passes
+                    ran.append(f"{k[0]}r")
+                    expect[f"{k[0]}r"] = (True, False)
             if escaped:
                 expect[name] = (False, False)
                 return escaped
@@ -237,7 +253,8 @@ class CliSuite(Suite):
                 expect[name] = (False, False); return "exc"
             if b == 2:
                 expect[name] = ("any", True); return None
-            expect[name] = (False, False); return "kbd"
+            expect[name] = (False, False)
+            return {3: "kbd", 4: "exit3", 5: "exit1"}[b]
         final = None
         for t in case["trees"]:
             final = ev_node(t)
@@ -259,7 +276,7 @@ class CliSuite(Suite):
             if code != 0 or tend != [[4, True]]:
                 fails.append(f"no exception escaped a top-level testcase but exit status {code}, final event {tend}")
         else:
-            want = 130 if final == "kbd" else 1
+            want = {"kbd": 130, "exit3": 3}.get(final, 1)
             if code != want or tend != [[4, False]]:
                 fails.append(f"an exception ({final}) escaped a top-level testcase: exit status {code} (want {want}), final event {tend} (want FAILURE)")
         return fails
@@ -272,4 +289,37 @@ class CliSuite(Suite):
         return f"{case['cli']}/exit={obs[1]}"
 
 
-SUITES = [CliSuite()]
+class ExitSuite(CliSuite):
+    """trees outside the Coq model, judged by the reference evaluation of the oracle only: a caller that handles a
+    child's failure by running a recovery testcase inside its `except` block, and bodies that leave through
+    sys.exit(3) / sys.exit("message") (exceptions that escape every `except Exception`)"""
+    name = "cli_extra"
+    model_fn = None
+
+    def gen(self, tier, rng):
+        n = 120 if tier == "thorough" else 40
+        for i in range(n):
+            counter = [0]
+
+            def node(depth):
+                name = counter[0]
+                counter[0] += 1
+                kids = []
+                if depth > 0:
+                    for _ in range(rng.randint(0, 2)):
+                        kids.append([rng.choice([0, 1, 2, 2]), node(depth - 1)])
+                return [name, rng.choice([0, 1, 2]), kids, rng.choice([0, 0, 1, 1, 2, 4, 5])]
+            trees = [node(rng.choice([1, 2])) for _ in range(rng.randint(1, 2))]
+            for t in trees:
+                if t[1] == 2:
+                    t[1] = rng.choice([0, 1])      # a top-level testcase must be a decorated function for the classic CLI to find it
+            yield {"trees": trees, "cli": "newbot" if i % 2 else "tbot"}
+
+    def nontrivial(self, case, obs):
+        return True
+
+    def finding_key(self, case, obs, failure):
+        return None
+
+
+SUITES = [CliSuite(), ExitSuite()]
